@@ -413,15 +413,15 @@ def do_refine(w, marks, kinds, via='refine', region=None, mark_truncate=False):
 # structural comparison (used by every property to stay in sync with the model)
 
 def deactivated_functions(hs, l, m):
-    """deactivated functions of level l as multi-indices: from the attribute pyiga itself uses, or, should a
-    refactoring rename it, from the public deactivated_indices()"""
+    """deactivated functions of level l as multi-indices, through the PUBLIC deactivated_indices() (documented:
+    per level the raveled indices); the attribute pyiga itself uses (deactfun) only as a fallback"""
     try:
-        return set(hs.deactfun[l])
-    except AttributeError:
-        idx = hs.deactivated_indices()[l]
-        if isinstance(idx, tuple) or (len(idx) and not np.isscalar(idx[0])):
-            return set(zip(*[np.asarray(a).tolist() for a in idx])) if len(idx) else set()
-        return set(zip(*np.unravel_index(np.asarray(idx, dtype=int), m.nfuncs(l)))) if len(idx) else set()
+        idx = np.asarray(hs.deactivated_indices()[l], dtype=int).ravel()
+        if idx.size == 0:
+            return set()
+        return set(zip(*[a.tolist() for a in np.unravel_index(idx, m.nfuncs(l))]))
+    except Exception:
+        return set(tuple(int(x) for x in f) for f in hs.deactfun[l])
 
 
 def structure_matches(w, report):
